@@ -1,5 +1,6 @@
-//! Universe T: thin-capable payload `HeaderSlice<HeaderWithLength<Tracked<3>>, [Tracked<4>]>`,
-//! fat / protected / thin / raw / unique handles, with_arc and with_arc_mut callbacks (DESIGN §2.4).
+// Universe T: thin-capable payload `HeaderSlice<HeaderWithLength<Tracked<3>>, [EE]>`,
+// fat / protected / thin / raw / unique handles, with_arc and with_arc_mut callbacks (DESIGN §2.4).
+// Included twice (see main.rs): elements `Tracked<4>` ("T") and 64-aligned `TrackedW<4>` ("TW").
 use crate::cmp::*;
 use crate::engine::*;
 use std::alloc::Layout;
@@ -11,7 +12,6 @@ use vrt::arena::cap;
 use vrt::track::{self, Tracked};
 
 pub type HH = Tracked<3>;
-pub type EE = Tracked<4>;
 pub type Unc = HeaderSlice<HeaderWithLength<HH>, [EE]>;
 pub type Prot = HeaderSliceWithLengthProtected<HH, EE>;
 pub type Thin = ThinArc<HH, EE>;
@@ -174,6 +174,7 @@ impl Model {
         e.rmw.push((al.block, il.size(), Rmw::Sub, 1));
         al.owners -= 1;
         if al.owners == 0 {
+            e.rmw_optional.push(e.rmw.len() - 1);
             e.drops.push((3, al.hid));
             for i in &al.eids {
                 e.drops.push((4, *i));
@@ -553,7 +554,7 @@ impl Universe for UT {
     type Real = Real;
     type Model = Model;
     type Op = Op;
-    const NAME: &'static str = "T";
+    const NAME: &'static str = UNAME;
 
     fn new() -> (Real, Model) {
         (Real { hs: Vec::with_capacity(16), blocks: Vec::with_capacity(16) }, Model { slots: [None, None], hs: Vec::with_capacity(16) })
